@@ -56,9 +56,19 @@ pub struct Dates {
 
 impl Dates {
     pub(crate) const fn new(month_shape: MonthShape) -> Self {
+        // Only iterate over the dates whose Julian day numbers are
+        // representable; these form a contiguous run of day ordinals.
+        let mut start = 1;
+        let mut end = month_shape.len();
+        while start <= end && month_shape.nth_date(start).is_none() {
+            start += 1;
+        }
+        while start <= end && month_shape.nth_date(end).is_none() {
+            end -= 1;
+        }
         Dates {
             month_shape,
-            inner: 1..=(month_shape.len()),
+            inner: start..=end,
         }
     }
 }
